@@ -30,6 +30,12 @@ type NondetRec struct {
 	Fixed int64
 }
 
+type observeRec struct {
+	Label string
+	G     *Term
+	V     Value
+}
+
 type AssertRec struct {
 	G    *Term // path guard
 	Cond *Term
@@ -68,6 +74,8 @@ type Exec struct {
 
 	tagIDs map[string]int64
 	oblCache map[*ssa.Function]bool
+	history  bool // second run of a two-history harness: vrt.HistoryStep() is true
+	observes []observeRec
 	frameExempt map[*Object]bool
 	fixed  map[string]int64 // cube splitting: labels fixed to constants in this run
 }
@@ -477,6 +485,10 @@ func (ex *Exec) newObjectOf(t types.Type, name string) *PtrVal {
 		o.cells[0] = ex.zeroValue(t)
 		return ptrTo(o, 0)
 	}
+	if namedIs(t, "sync", "Map") {
+		o := ex.heap.newObj(KMap, nil, 0, name)
+		return ptrTo(o, -1)
+	}
 	if namedIs(t, "strings", "Builder") || namedIs(t, "bytes", "Buffer") {
 		o := ex.heap.newObj(KBuilder, t, 1, name)
 		o.cells[0] = Str("")
@@ -582,6 +594,28 @@ func (ex *Exec) panicIf(g *Term, msg string) {
 	ex.panics = append(ex.panics, guarded{g, msg})
 }
 
+// prunePtr drops the targets of p that are excluded by the current absolute path guard (e.g. the nil
+// target inside `if p != nil { ... }`); a single remaining target becomes unconditional.
+func prunePtr(p *PtrVal, g *Term) *PtrVal {
+	if len(p.T) < 2 {
+		return p
+	}
+	var ts []PtrTarget
+	for _, t := range p.T {
+		if And(g, t.G).IsFalse() {
+			continue
+		}
+		ts = append(ts, t)
+	}
+	if len(ts) == len(p.T) || len(ts) == 0 {
+		return p
+	}
+	if len(ts) == 1 {
+		ts[0].G = True
+	}
+	return &PtrVal{T: ts}
+}
+
 // load reads through a pointer value.
 func (ex *Exec) load(p *PtrVal, g *Term, where string) Value {
 	var acc Value
@@ -622,6 +656,10 @@ func (ex *Exec) store(p *PtrVal, val Value, g *Term, where string) {
 			unsupported("store of whole aggregate at %s", where)
 		}
 		c := And(g, t.G)
+		if t.Obj.born != nil && c == t.Obj.born {
+			// the object only exists where this store happens: no merge with the previous content needed
+			c = True
+		}
 		t.Obj.cells[t.Idx] = iteValue(c, val, t.Obj.cells[t.Idx])
 	}
 }
@@ -661,7 +699,11 @@ func (ex *Exec) mapUpdate(m *PtrVal, key *Term, val Value, g *Term) {
 			ex.panicIf(And(g, t.G), "assignment to entry in nil map")
 			continue
 		}
-		t.Obj.entries = append(t.Obj.entries, MapEntry{G: And(g, t.G), Key: key, Val: val})
+		eg := And(g, t.G)
+		if t.Obj.born != nil && eg == t.Obj.born {
+			eg = True
+		}
+		t.Obj.entries = append(t.Obj.entries, MapEntry{G: eg, Key: key, Val: val})
 	}
 }
 
@@ -685,9 +727,11 @@ func (fr *frame) step(ins ssa.Instruction, lg *Term, b *ssa.BasicBlock) {
 	switch x := ins.(type) {
 	case *ssa.DebugRef:
 	case *ssa.Alloc:
-		fr.env[x] = ex.newObjectOf(x.Type().(*types.Pointer).Elem(), x.Comment)
+		p := ex.newObjectOf(x.Type().(*types.Pointer).Elem(), x.Comment)
+		p.T[0].Obj.born = g
+		fr.env[x] = p
 	case *ssa.FieldAddr:
-		p := fr.eval(x.X).(*PtrVal)
+		p := prunePtr(fr.eval(x.X).(*PtrVal), g)
 		var ts []PtrTarget
 		for _, t := range p.T {
 			if t.Obj == nil {
@@ -806,6 +850,7 @@ func (fr *frame) step(ins ssa.Instruction, lg *Term, b *ssa.BasicBlock) {
 		fr.env[x] = fv
 	case *ssa.MakeMap:
 		o := ex.heap.newObj(KMap, x.Type(), 0, "map")
+		o.born = g
 		fr.env[x] = ptrTo(o, -1)
 	case *ssa.MapUpdate:
 		ex.mapUpdate(fr.eval(x.Map).(*PtrVal), fr.term(x.Key), fr.eval(x.Value), g)
